@@ -19,6 +19,10 @@ pub enum Case {
     Cuckoo { lg_buckets: u32, bucketsize: usize, l_fp: usize },
     Bloom { m: usize, k: usize, seed: u64 },
     Cms { w: usize, d: usize, seed: u64 },
+    /// BloomFilter::with_properties_and_hash(n, p) for n >= 2^32
+    BloomProps { n: usize, p: f64, seed: u64 },
+    /// CuckooFilter::with_properties_and_hash_4 / _8 (bucketsize 4 / 8) for n >= 2^31
+    CuckooProps { bucketsize: u8, n: usize, p: f64, seed: u64 },
 }
 
 pub struct Giant;
@@ -184,6 +188,52 @@ fn cms(w: usize, d: usize, seed: u64) -> Result<u64, (String, String)> {
     Ok(total)
 }
 
+/// A filter dimensioned for n >= 2^31 elements that holds only 20 000: its false positive frequency must be far
+/// below p (it is a lower bound of the frequency at n elements), it must have at least n bits / slots, and no
+/// insert may fail.
+fn props(bloom: bool, bucketsize: u8, n: usize, p: f64, seed: u64) -> Result<u64, (String, String)> {
+    let keys: Vec<u64> = (0..20_000u64).map(|i| mix(seed, i) << 1).collect();
+    let probes: Vec<u64> = (0..20_000u64).map(|i| (mix(seed ^ 0x99, i) << 1) | 1).collect();
+    let bh = GenBH(HKind::Seeded(seed % 1000));
+    let fp;
+    if bloom {
+        let mut f: BloomFilter<u64, GenBH> = BloomFilter::with_properties_and_hash(n, p, bh);
+        if f.m() < n {
+            return Err(("giant-bloom-props:undersized".into(), format!("with_properties({}, {}) gives m() = {} bits, fewer than one bit per expected element", n, p, f.m())));
+        }
+        for x in &keys {
+            f.insert(x).unwrap();
+        }
+        if let Some(x) = keys.iter().find(|x| !f.query(x)) {
+            return Err(("giant-bloom-props:false-negative".into(), format!("query({}) is false after its insert (n={}, p={})", x, n, p)));
+        }
+        fp = probes.iter().filter(|x| f.query(x)).count();
+    } else {
+        let mut f: CuckooFilter<u64, SmRng, GenBH> = if bucketsize == 4 { CuckooFilter::with_properties_and_hash_4(p, n, SmRng::new(seed), bh) } else { CuckooFilter::with_properties_and_hash_8(p, n, SmRng::new(seed), bh) };
+        let slots = f.n_buckets() as u128 * f.bucketsize() as u128;
+        if slots < n as u128 {
+            return Err(("giant-cuckoo-props:undersized".into(), format!("with_properties_{}({}, {}) gives {} buckets of {} slots, fewer slots than expected elements", bucketsize, p, n, f.n_buckets(), f.bucketsize())));
+        }
+        for (i, x) in keys.iter().enumerate() {
+            if f.insert(x).is_err() {
+                return Err(("giant-cuckoo-props:full-before-n".into(), format!("insert #{} of {} expected elements returned Err(Full) (p={})", i + 1, n, p)));
+            }
+        }
+        if let Some(x) = keys.iter().find(|x| !f.query(x)) {
+            return Err(("giant-cuckoo-props:false-negative".into(), format!("query({}) is false after its insert (n={}, p={})", x, n, p)));
+        }
+        fp = probes.iter().filter(|x| f.query(x)).count();
+    }
+    // allowed: 1.3 * p; with 20 000 of >= 2^31 elements in place the expectation is < 1e-4 * p
+    if fp as f64 > 1.3 * p * probes.len() as f64 {
+        return Err((
+            if bloom { "giant-bloom-props:rate" } else { "giant-cuckoo-props:rate" }.into(),
+            format!("{} of {} never-inserted probes are reported present by a filter built for n = {}, p = {} that holds only {} elements", fp, probes.len(), n, p, keys.len()),
+        ));
+    }
+    Ok(40_000)
+}
+
 impl Check for Giant {
     type Case = Case;
     fn name(&self) -> &'static str {
@@ -196,6 +246,8 @@ impl Check for Giant {
             Case::Cuckoo { lg_buckets, bucketsize, l_fp } => cuckoo(lg_buckets, bucketsize, l_fp),
             Case::Bloom { m, k, seed } => bloom(m, k, seed),
             Case::Cms { w, d, seed } => cms(w, d, seed),
+            Case::BloomProps { n, p, seed } => props(true, 0, n, p, seed),
+            Case::CuckooProps { bucketsize, n, p, seed } => props(false, bucketsize, n, p, seed),
         });
         match r {
             Err(p) => fail(format!("giant-{}", panic_sig(&p)), format!("{:?}: {}", c, p)),
@@ -223,4 +275,15 @@ pub fn bloom_cases(seed: u64) -> Vec<Case> {
 
 pub fn cms_cases(seed: u64) -> Vec<Case> {
     vec![Case::Cms { w: (1usize << 31) + 3, d: 1, seed }, Case::Cms { w: (1usize << 32) + 1, d: 1, seed: seed ^ 1 }, Case::Cms { w: 1usize << 30, d: 3, seed: seed ^ 2 }]
+}
+
+pub fn props_cases(seed: u64) -> Vec<Case> {
+    vec![
+        Case::BloomProps { n: 1usize << 32, p: 0.5, seed },
+        Case::BloomProps { n: (1usize << 32) + 50, p: 0.5, seed: seed ^ 1 },
+        Case::BloomProps { n: (1usize << 31) + 7, p: 0.1, seed: seed ^ 2 },
+        Case::CuckooProps { bucketsize: 4, n: (1usize << 31) + 5, p: 0.5, seed: seed ^ 3 },
+        Case::CuckooProps { bucketsize: 8, n: 1usize << 32, p: 0.9, seed: seed ^ 4 },
+        Case::CuckooProps { bucketsize: 4, n: (1usize << 32) + 50, p: 0.9, seed: seed ^ 5 },
+    ]
 }
